@@ -211,7 +211,8 @@ def check_lookup(spec, ctx):
 
     for raise_error in (spec["raise_error"], not spec["raise_error"]):
         # written positionally (documented order: arr, dim, value, raise_error) and with a numpy scalar value
-        for how, alt in (("positionally", lambda: arrays.get_coord_index(arr, "time", v, raise_error)), ("with a numpy scalar", lambda: arrays.get_coord_index(arr, "time", np.float64(v), raise_error=raise_error))):
+        for how, alt in (("positionally", lambda: arrays.get_coord_index(arr, "time", v, raise_error)), ("with a numpy scalar", lambda: arrays.get_coord_index(arr, "time", np.float64(v), raise_error=raise_error)),
+                         ("with the dimension given as the library's Dimensions.time member (a str)", lambda: arrays.get_coord_index(arr, arrays.Dimensions.time, v, raise_error=raise_error))):
             ok_, both = same_answer(lambda: arrays.get_coord_index(arr, "time", v, raise_error=raise_error), alt)
             if not ok_:
                 ctx.fail(f"get_coord_index({v!r}, raise_error={raise_error}) written {how} answers {both[1]}, the keyword call {both[0]}", spec, both[1], both[0], kind="call_style")
